@@ -122,7 +122,7 @@ fn docs_of(a: &ast::Aidl) -> Vec<(String, Option<String>)> {
     v
 }
 
-pub const SITUATIONS: [&str; 10] = [
+pub const SITUATIONS: [&str; 11] = [
     "none",
     "ordinary block comment only",
     "ordinary line comment only",
@@ -133,6 +133,7 @@ pub const SITUATIONS: [&str; 10] = [
     "doc comment on the previous sibling, same line",
     "doc comment on the previous sibling, previous line",
     "doc comments on this construct and on its previous sibling",
+    "doc comment then a dozen long line comments",
 ];
 
 /// Build the source text: base layout = one statement per line; `pre` is put in front of token
@@ -227,6 +228,14 @@ impl Gen {
                 expect.push((ppath, Some(other.expected())));
                 expect.push(me(Some(shape.expected())));
             }
+            10 => {
+                let mut t = format!("{doc}{eol}  ");
+                for k in 0..12 {
+                    t.push_str(&format!("// {k:02} {}{eol}  ", "commented out code, kept for reference ".repeat(2)));
+                }
+                inserts.push((*at, t));
+                expect.push(me(Some(shape.expected())));
+            }
             _ => return None,
         }
         let text = render_with(&self.toks[*hi], eol, &inserts, if situation == 7 { Some(*at) } else { None });
@@ -238,7 +247,7 @@ impl Gen {
                 SITUATIONS[situation],
                 style,
                 if crlf { "CRLF" } else { "LF" },
-                shape.expected()
+                shape.expected().chars().take(100).collect::<String>()
             ),
             files: vec![("f".into(), text)],
             expect: json!({"docs": expect, "item": format!("{:?}", self.hosts[*hi].item.kind)}),
@@ -346,6 +355,50 @@ pub fn run(tier: Tier, seed: u64) -> i32 {
         check_case,
     );
     stats.space(json!({"space": "situations x representative shapes x styles x constructs x EOL", "situations": SITUATIONS, "representative_shapes": reps.len()}));
+    // part 3: long doc comments (600 bytes .. 5 KB) x styles x constructs x EOL x situations
+    let longs: Vec<DocShape> = {
+        let line = |k: usize| format!("line {k:03} of a long description, Größe é 日本 and plain words to fill it up");
+        let mut v = Vec::new();
+        for nlines in [1usize, 8, 9, 32, 64] {
+            // one paragraph of nlines lines (a single line of ~600 bytes when nlines == 1)
+            let paras = if nlines == 1 {
+                vec![vec![(0..8).map(line).collect::<Vec<_>>().join(" ")]]
+            } else {
+                vec![(0..nlines).map(line).collect::<Vec<_>>()]
+            };
+            v.push(DocShape { paras, tags: vec![] });
+        }
+        // several paragraphs and tag clauses, > 2 KB
+        v.push(DocShape {
+            paras: (0..6).map(|p| (0..5).map(|k| line(p * 5 + k)).collect()).collect(),
+            tags: vec!["@param x the first".to_string(), format!("@return {}", line(99))],
+        });
+        v
+    };
+    let sits3 = [3usize, 4, 5, 8, 9, 10];
+    let n3 = sits3.len() * longs.len() * styles.len() * nt * 2;
+    super::drive(
+        &stats,
+        n3,
+        1,
+        |i| {
+            let crlf = i % 2 == 1;
+            let ti = (i / 2) % nt;
+            let st = styles[(i / (2 * nt)) % styles.len()];
+            let li = (i / (2 * nt * styles.len())) % longs.len();
+            let sit = sits3[i / (2 * nt * styles.len() * longs.len())];
+            let sh = &longs[li];
+            if !sh.fits(st) {
+                return None;
+            }
+            let c = g.case(ti, sit, sh, st, crlf)?;
+            stats.nontrivial(fnv(&c.files[0].1));
+            Some(c)
+        },
+        check_case,
+    );
+    stats.space(json!({"space": "long doc comments (0.6-5 KB) x 6 situations x styles x constructs x EOL", "shapes": longs.len()}));
+    // part 4: the situation with a dozen line comments x representative shapes
     let all = SITUATIONS.iter().all(|s| stats.outcome_count(&format!("situation:{s}")) > 0);
     finish(
         &stats,
